@@ -362,7 +362,12 @@ class ASTRewriter(ast.NodeTransformer):
 
     def __unroll_arg(self, arg):
         """Transform a node to a list (when is a Tuple or a subscribable type)"""
-        if isinstance(arg, ast.Tuple):
+        if isinstance(arg, list):
+            # An already expanded range(): a list of plain values
+            return [
+                a if isinstance(a, ast.AST) else ast.Constant(value=a) for a in arg
+            ]
+        elif isinstance(arg, ast.Tuple):
             # If it's a tuple, return elts
             return arg.elts
         elif isinstance(arg, ast.Constant) and isinstance(arg.value, ast.Tuple):
